@@ -481,9 +481,11 @@ def main():
         "wall_s": round(time.time() - t0, 2),
         "violations": len(violations),
     }
-    os.makedirs(os.path.join(VERIF, "evidence"), exist_ok=True)
+    # evidence describes /repo; self-test runs against a scratch worktree must not overwrite it
+    evdir = os.path.join(VERIF, "evidence") if os.path.realpath(REPO) == "/repo" else os.path.join(BUILD, "evidence_selftest")
+    os.makedirs(evdir, exist_ok=True)
     if not replay:
-        with open(os.path.join(VERIF, "evidence", prop + ".json"), "w") as f:
+        with open(os.path.join(evdir, prop + ".json"), "w") as f:
             json.dump(ev, f, indent=1)
     with open(os.path.join(BUILD, "log_%s_%s.txt" % (prop, tier)), "w") as f:
         f.write("\n-----\n".join(log))
